@@ -2,6 +2,7 @@ import ZV.Proofs.C21
 import ZV.Proofs.C21Build
 import ZV.Proofs.C21Leaf
 import ZV.Props.C19
+import ZV.Proofs.TimeCB
 /-!
   C21 — cryptobyte builders and readers are exact inverses.
 
@@ -14,17 +15,23 @@ import ZV.Props.C19
     `flushChild` is reachable from a program.
   * `read_write_fragment` (kept): the tail-independent fragment {AddUint8/16/24/32, AddBytes,
     AddUintNLengthPrefixed, AddASN1, AddASN1OctetString, AddASN1Boolean, AddASN1NULL}.
-  * `read_write_all`: for every program over ALL 21 ops of the model that satisfies the decidable predicate
+  * `read_write_all`: for every program over ALL 22 ops of the model that satisfies the decidable predicate
     `readable p tail`, the mirrored read program returns exactly the written values and leaves exactly the
     tail.  `readable` says: fixed-width values fit their width; int64 / uint64 values fit their Go type;
     every ASN.1 body is shorter than 2^32-6 bytes (the limit of `readASN1`'s uint32 guard); every OID
     sub-identifier (40·a+b and the further arcs) is below 2^31 (the limit of `readBase128Int`); and every
     ABSENT optional field is followed (in the written bytes, or in the tail) by a byte different from its tag
-    — nothing else.  `build_read_roundtrip` states it against the low-level Builder model.
+    — and the zone offset of a GeneralizedTime is below 25 hours and not a non-zero number of seconds below one
+    minute (`ZV.Time.gtimeOK`) — nothing else.  `build_read_roundtrip` states it against the low-level Builder model.
+  * GeneralizedTime (`gtime_read_write`, `gtime_whole_minutes`, `gtime_year_guard`, `gtime_subminute_rejected`,
+    `gtime_read_back_iff`):
+    `ReadASN1GeneralizedTime` on what `AddASN1GeneralizedTime` wrote returns `ZV.Time.readBack t` — the same
+    instant and zone when the zone offset is a whole number of minutes; the instant moved by the dropped seconds
+    of the offset otherwise (the text form has no zone seconds; finding F-C21-gtime-zone-seconds).
   * `lp n` covers every prefix width `n` (so also the 32-bit `AddUint32LengthPrefixed`; zcrypto's String has
     no `ReadUint32LengthPrefixed`, the harness reads such a block with `ReadUint32` + `ReadBytes`, which is
     what `readLengthPrefixed 4` is).
-  Not covered (no model): GeneralizedTime / UTCTime ops (T3 oracle only).
+  `time.Parse` / `Time.Format` for the layout of GeneralizedTime are part of the model (`ZV.Model.Time`).
 -/
 open ZV ZV.Der0
 namespace ZV.C21
@@ -231,7 +238,7 @@ example : Frag (.lp 2 (.asn1 0x30 (.uN 1 7 (.bool true .done)) (.null .done)) (.
 
 /-- `var b Builder; <program>; b.Bytes()` in the low-level model — shared result buffer, `offset`,
     `pendingLenLen`, `pendingIsASN1`, length back-patching in `flushChild`, DER long-form widening by an
-    overlapping `copy` — equals the specification serializer, for every program (all 21 ops, any nesting,
+    overlapping `copy` — equals the specification serializer, for every program (all 22 ops, any nesting,
     any prefix width, including every error case). -/
 theorem builder_refines_ser (p : Prog) : buildBytes p = ser p := buildBytes_eq_ser p
 
@@ -283,6 +290,7 @@ def readable : Prog → Bytes → Bool
   | .noOctets tag k, t => nextIsNot tag (ser k) t && readable k t
   | .optBool _ _ k, t => readable k t
   | .noBool _ k, t => nextIsNot 1 (ser k) t && readable k t
+  | .gtime tm k, t => ZV.Time.gtimeOK tm && readable k t
 
 /-- **write → read, all ops.**  Whatever a `readable` program writes, the mirrored read program reads
     back: exactly the written values, exactly the tail left unread. -/
@@ -441,8 +449,15 @@ theorem read_write_all (p : Prog) :
     simp only [readable, Bool.and_eq_true] at hr
     have hs : ser k = .ok bs := h
     simp only [readProg, values, optional_absent_boolean _ d (nextIsNot_ok hr.1 hs), ih tail bs hr.2 hs, cons]
+  | gtime tm k ih =>
+    intro tail bs hr h
+    simp only [readable, Bool.and_eq_true] at hr
+    obtain ⟨x, y, hx, hy, e⟩ := append_ok h
+    subst e
+    simp only [readProg, values, List.append_assoc,
+      ZV.Time.readGeneralizedTime_back tm x (y ++ tail) hx hr.1, ih tail y hr.2 hy, cons]
 
-/-- a program over 17 of the 21 ops (all integer kinds at their type limits, the largest readable OID
+/-- a program over 17 of the 22 ops (all integer kinds at their type limits, the largest readable OID
     sub-identifier, BIT STRING, present and absent optional fields, nesting) that satisfies `readable`
     and is serialized successfully. -/
 def exampleProg : Prog :=
@@ -513,5 +528,98 @@ theorem frag_readable (p : Prog) (hf : Frag p) : ∀ tail, readable p tail = tru
   | bool v k ih => intro t; simp [readable, ih hf t]
   | null k ih => intro t; simp [readable, ih hf t]
   | _ => exact hf.elim
+
+/-! ## GeneralizedTime -/
+open ZV.Time in
+/-- **AddASN1GeneralizedTime → ReadASN1GeneralizedTime.**  For every time the Builder accepts (year 0..9999 in
+    the zone of the value) whose zone offset passes `gtimeOK`, the reader accepts the written element in front
+    of any tail, leaves exactly the tail, and returns `readBack t`: whole seconds, the zone offset truncated to
+    whole minutes with the local clock reading kept. -/
+theorem gtime_read_write (t : GoTime) (bs tail : Bytes) (h : Time.CB.addGeneralizedTime t = .ok bs)
+    (hz : gtimeOK t = true) : Time.CB.readGeneralizedTime (bs ++ tail) = .ok (readBack t, tail) :=
+  readGeneralizedTime_back t bs tail h hz
+
+open ZV.Time in
+/-- the documented case: a zone offset of whole minutes below 25 hours (UTC included) — the same instant, the
+    same zone offset, to the second. -/
+theorem gtime_whole_minutes (t : GoTime) (bs tail : Bytes) (h : Time.CB.addGeneralizedTime t = .ok bs)
+    (hm : Int.tmod t.off 60 = 0) (h1 : -90000 < t.off) (h2 : t.off < 90000) :
+    Time.CB.readGeneralizedTime (bs ++ tail) = .ok ({ unix := t.unix, off := t.off, nsec := 0 }, tail) := by
+  have hz : gtimeOK t = true := by
+    simp only [gtimeOK, decide_eq_true_eq]
+    refine ⟨h1, h2, ?_⟩
+    have := Int.mul_tdiv_add_tmod t.off 60
+    omega
+  rw [gtime_read_write t bs tail h hz, readBack_whole t hm]
+
+example : Time.CB.addGeneralizedTime { unix := 1709231399, off := 19800, nsec := 7 } =
+      .ok [0x18, 0x13, 0x32, 0x30, 0x32, 0x34, 0x30, 0x32, 0x32, 0x39, 0x32, 0x33, 0x35, 0x39, 0x35, 0x39, 0x2b, 0x30,
+        0x35, 0x33, 0x30] ∧
+    ZV.Time.gtimeOK { unix := 1709231399, off := 19800, nsec := 7 } = true ∧
+    Int.tmod (19800 : Int) 60 = 0 := by decide +kernel
+
+open ZV.Time in
+/-- the Builder's year guard: it refuses every time whose year (in the zone of the value) is outside 0..9999,
+    and — for the zone offsets of `gtimeOK` — writes every other time. -/
+theorem gtime_year_guard (t : GoTime) :
+    ((t.year < 0 ∨ t.year > 9999) → Time.CB.addGeneralizedTime t = .err) ∧
+    (0 ≤ t.year → t.year ≤ 9999 → gtimeOK t = true → (Time.CB.addGeneralizedTime t).isOk = true) := by
+  constructor
+  · intro h; simp only [Time.CB.addGeneralizedTime, h, if_true]
+  · intro h0 h1 hz
+    simp only [gtimeOK, decide_eq_true_eq] at hz
+    have hy : ¬ (t.year < 0 ∨ t.year > 9999) := by omega
+    have hl := genText_length t
+    simp only [Time.CB.addGeneralizedTime, hy, if_false, format_gen_eq t h0 h1 (by omega) (by omega) hz.2.2]
+    have e : (EA.fourDigits t.year.toNat ++ (fieldsText t.civil ++ zoneText t.off)) = genText t := rfl
+    rw [e]
+    simp only [CB.element, show ¬ ((0x18 : UInt8).toNat % 32 = 31) by decide, if_false, CB.derLength]
+    have e1 : ¬ ((genText t).length > 0xfffffffe) := by omega
+    have e2 : ¬ ((genText t).length > 0xffffff) := by omega
+    have e3 : ¬ ((genText t).length > 0xffff) := by omega
+    have e4 : ¬ ((genText t).length > 0xff) := by omega
+    have e5 : ¬ ((genText t).length > 0x7f) := by omega
+    simp only [e1, e2, e3, e4, e5, if_false, Res.isOk]
+
+example : (Time.CB.addGeneralizedTime { unix := -62167219201, off := 0 }) = .err ∧
+    (Time.CB.addGeneralizedTime { unix := -62167219201, off := 3600 }).isOk = true ∧
+    (Time.CB.addGeneralizedTime { unix := 253402300800, off := 0 }) = .err ∧
+    (Time.CB.addGeneralizedTime { unix := 253402300800, off := -60 }).isOk = true := by decide +kernel
+
+open ZV.Time in
+/-- **finding F-C21-gtime-zone-seconds (1).**  A zone offset of 1..59 seconds, either sign: the Builder writes
+    the zone as `+0000`, and `ReadASN1GeneralizedTime` REJECTS what `AddASN1GeneralizedTime` wrote (the parsed
+    time re-serialises with `Z`). -/
+theorem gtime_subminute_rejected (t : GoTime) (bs tail : Bytes) (h : Time.CB.addGeneralizedTime t = .ok bs)
+    (h0 : t.off ≠ 0) (h1 : -60 < t.off) (h2 : t.off < 60) :
+    Time.CB.readGeneralizedTime (bs ++ tail) = .err :=
+  readGeneralizedTime_subminute t bs tail h h0 h1 h2
+
+open ZV.Time in
+/-- **the zone condition of `readable` is exact** (zone offsets below 100 hours): what `AddASN1GeneralizedTime`
+    wrote is read back by `ReadASN1GeneralizedTime` iff `gtimeOK` — a zone of 25 hours or more is written with an
+    hour field that the reader's `time.Parse` refuses, a zone of 1..59 seconds as `+0000`. -/
+theorem gtime_read_back_iff (t : GoTime) (bs tail : Bytes) (h : Time.CB.addGeneralizedTime t = .ok bs)
+    (h1 : -360000 < t.off) (h2 : t.off < 360000) :
+    Time.CB.readGeneralizedTime (bs ++ tail) = .ok (readBack t, tail) ↔ gtimeOK t = true :=
+  readGeneralizedTime_back_iff t bs tail h h1 h2
+
+example : (Time.CB.addGeneralizedTime { unix := 0, off := 90000 }).isOk = true ∧
+    ZV.Time.gtimeOK { unix := 0, off := 90000 } = false ∧ ZV.Time.gtimeOK { unix := 0, off := 89940 } = true := by
+  decide +kernel
+
+/-- replayed on the Go code by `c21 rw g:0@30 -` (Go and model: `1813…2b30303030 readfail`) -/
+example : (match Time.CB.addGeneralizedTime { unix := 0, off := 30 } with
+    | .ok bs => Time.CB.readGeneralizedTime bs
+    | _ => .ok ({ unix := 0, off := 0 }, [])) = .err := by decide +kernel
+
+/-- **finding F-C21-gtime-zone-seconds (2).**  A zone offset of a minute or more with seconds: the element is
+    read back, as a DIFFERENT instant (here 30 seconds later) in the zone truncated to whole minutes.
+    Replayed on the Go code by `c21 rw g:0@90 -`. -/
+example : (match Time.CB.addGeneralizedTime { unix := 0, off := 90 } with
+    | .ok bs => Time.CB.readGeneralizedTime bs
+    | _ => .err) = .ok ({ unix := 30, off := 60 }, []) ∧
+    ZV.Time.gtimeOK { unix := 0, off := 90 } = true ∧ ZV.Time.readBack { unix := 0, off := 90 } = { unix := 30, off := 60 } := by
+  decide +kernel
 
 end ZV.C21
